@@ -2,10 +2,13 @@
 """Print the prompt given to a mutation-seeding sub-agent for one property (only the property text + its scratch worktree)."""
 import json, sys
 pid = sys.argv[1]
+suffix = sys.argv[2] if len(sys.argv) > 2 else ""
+avoid = sys.argv[3] if len(sys.argv) > 3 else ""
 props = {json.loads(l)['id']: json.loads(l) for l in open('/verif/properties.jsonl')}
 p = props[pid]
-d = f"/tmp/seed/{pid}"
-o = f"/tmp/seed_out/{pid}"
+hint = (f" Earlier rounds already changed these places, so pick DIFFERENT functions, macros or mechanisms (read the sources to find the less obvious code paths this property depends on): {avoid}." if avoid else "")
+d = f"/tmp/seed/{pid}{suffix}"
+o = f"/tmp/seed_out/{pid}{suffix}"
 print(f"""You are helping test a verification effort by *seeding realistic bugs* into a Rust library. You have your own scratch git worktree of the library konst (rodrimati1992/konst: const-fn equivalents of std slice/str/Option/iterator methods, a compile-time string Parser, destructure! macro, etc.) at {d} (already created; detached HEAD). Work ONLY inside {d} and {o}. Never touch /repo or /verif (do not even read /verif). The sandbox has no network: always pass --offline to cargo and use `CARGO_TARGET_DIR={d}/target`.
 
 The property under test ({pid}: {p['title']}):
@@ -17,7 +20,7 @@ Quantified over: {p['quantifier']['text']}
 Your job: produce TWO independent, different changes (mutations) to the library *source* (files under konst/src, konst_kernel/src, konst_proc_macros/src — not tests) each of which BREAKS this property while
   (a) the workspace still compiles, and
   (b) the existing test suite still passes: `cd {d} && CARGO_TARGET_DIR={d}/target cargo test --workspace --offline 2>&1 | grep -E "^test result|FAILED|failed"` — note 3 tests `konst::string::priv_string_tests::invalid_*` already fail at baseline and must be ignored; every other test that passes at baseline must still pass (doctests included). Run the suite on the unchanged tree first to learn the baseline.
-Each change must be *realistic* — the kind of slip a maintainer could make in a refactor or "optimisation": an off-by-one in cursor/offset arithmetic, a swapped end, a comparison `<` vs `<=`, a dropped or weakened guard, a wrong variable reused, state updated in the wrong order, two cooperating sites that each look fine alone — NOT simply deleting a function body or returning a constant. And each must need something *specific* to manifest: a particular unusual input (boundary value, multi-byte char, overlap structure, empty/odd length), a multi-step sequence of operations, a particular combination of arguments — not something that ordinary simple use would expose at once (otherwise the existing tests would catch it). The two changes should touch different functions / mechanisms if possible.
+Each change must be *realistic* — the kind of slip a maintainer could make in a refactor or "optimisation": an off-by-one in cursor/offset arithmetic, a swapped end, a comparison `<` vs `<=`, a dropped or weakened guard, a wrong variable reused, state updated in the wrong order, two cooperating sites that each look fine alone — NOT simply deleting a function body or returning a constant. And each must need something *specific* to manifest: a particular unusual input (boundary value, multi-byte char, overlap structure, empty/odd length), a multi-step sequence of operations, a particular combination of arguments — not something that ordinary simple use would expose at once (otherwise the existing tests would catch it). The two changes should touch different functions / mechanisms if possible.{hint}
 
 For each change k in {{1,2}} deliver in {o}/:
   - patch{{k}}.diff : `git -C {d} diff` of the source change only (must apply with `git apply` to a clean checkout of the same commit),
